@@ -249,7 +249,7 @@ def main():
                           "actions")
   C02.tune_explore(4)
   SINK.open()
-  explore.explore(rep, "checks.C31", "C31Monitor", n_quick=128, budget_quick_s=22)
+  explore.explore(rep, "checks.C31", "C31Monitor", n_quick=160, budget_quick_s=30)
   rep.coverage["stored_actions_classified"] = SINK.total()
   return rep.finish()
 
